@@ -39,6 +39,9 @@ class SimProcessor:
 def register(registry):
     registry.register_param_source("sim-params", SimParamSource)
     registry.register_runner("sim-op", SimRunner(), async_runner=True)
+    # user-defined operation types are free-form strings: the same runner under names with underscores
+    registry.register_runner("sim_op", SimRunner(), async_runner=True)
+    registry.register_runner("sim-op_v2", SimRunner(), async_runner=True)
     if os.path.exists(os.path.join(os.path.dirname(__file__), "processor-raises")):
         from esrally.track import loader
 
@@ -61,7 +64,7 @@ def leaf_tasks(schedule):
 
 
 def task_json(t):
-    op = {"name": t.get("opname", f"op-{t['name']}"), "operation-type": t["op"]}
+    op = {"name": t.get("opname", f"op-{t['name']}"), "operation-type": t.get("optype", t["op"])}
     if t["op"] in ("sim-op", "raw-request"):
         op["param-source"] = "sim-params"
         op["sim"] = t["sim"]
